@@ -29,7 +29,9 @@ for m in sorted(glob.glob('/verif/seeded/*/meta.json')):
     j = json.load(open(m))
     caught = ', '.join(j['caught_by_quick_checks']) or '—'
     note = ''
-    if '(' in j['what_was_run'] and 'missed' in j['what_was_run']:
+    if j.get('neutralised'):
+        note = ' no longer breaks the property: ' + j['neutralised']
+    elif '(' in j['what_was_run'] and 'missed' in j['what_was_run']:
         note = ' — ' + j['what_was_run'][j['what_was_run'].index('('):]
     out.append(f"| {j['id']} | {j['breaks_property']} | {j['needs_to_manifest']} | {caught}{note} |")
 out.append("")
